@@ -68,7 +68,106 @@ func c14eval(r *vx.R, c c14case) {
 	if !gr.Equal(want) {
 		r.Violation(key+":wrong", fmt.Sprintf("%s(g=%s,s=%s,P=%.20s..) = %s, integer multiple is %s", c.Fn, c.G, c.S, c.P, showRef(gr), showRef(want)), c)
 	}
+	// the caller owns the result: computing in place on it (and overwriting it) must not reach package state or tables
+	kind, msg = vx.Try(func() {
+		got.Double(got)
+		got.Add(got, implPoint(sm2ref.BaseMul(big.NewInt(7))))
+		got.Negate(got)
+	})
+	if kind != "" {
+		r.Violation(key+":result-not-usable", fmt.Sprintf("in-place arithmetic on the returned point panicked: %s", msg), c)
+	}
+	bad1 := c14canary()
+	vx.Try(func() { got.SetBytes(encRef(sm2ref.BaseMul(big.NewInt(11)))) }) // (decoding resets Z to one in place: checked separately, it would heal a shared Z)
+	if bad1 != "" {
+		r.Violation("sm2mul:state-corrupted:after-"+c.Fn, fmt.Sprintf("after %s(g=%s,s=%s,P=%.20s..) and in-place arithmetic on its result, %s", c.Fn, c.G, c.S, c.P, bad1), c)
+	}
+	if bad := c14canary(); bad != "" {
+		r.Violation("sm2mul:state-corrupted:after-"+c.Fn, fmt.Sprintf("after %s(g=%s,s=%s,P=%.20s..) and in-place arithmetic on its result, %s", c.Fn, c.G, c.S, c.P, bad), c)
+	}
 	r.Shape(c.Fn + ":" + c.Shape)
+}
+
+var c14canaryK = vx.Fill("c14canary", 32)
+var c14canaryWant *sm2ref.Point
+var c14canaryBroken bool
+
+// c14canary recomputes fixed multiples and reports the first that is wrong (package tables or shared constants were
+// damaged). Once broken it stays silent: one report per process is enough.
+func c14canary() string {
+	if c14canaryBroken {
+		return ""
+	}
+	if c14canaryWant == nil {
+		w := sm2ref.BaseMul(new(big.Int).SetBytes(c14canaryK))
+		c14canaryWant = &w
+	}
+	bad := ""
+	kind, msg := vx.Try(func() {
+		p, err := internal.ScalarBaseMult(c14canaryK)
+		if err != nil {
+			bad = "the canary ScalarBaseMult failed: " + err.Error()
+			return
+		}
+		if gr, b := refPoint(p); b != "" || !gr.Equal(*c14canaryWant) {
+			bad = "ScalarBaseMult of a fixed scalar no longer gives [k]G"
+			return
+		}
+		q, err := internal.ScalarMixedMult_Unsafe(bytes32(big.NewInt(3)), implPoint(sm2ref.G()), bytes32(big.NewInt(0)))
+		if err != nil {
+			bad = "the canary mixed multiplication failed: " + err.Error()
+			return
+		}
+		if gr, b := refPoint(q); b != "" || !gr.Equal(sm2ref.BaseMul(big.NewInt(3))) {
+			bad = "[3]G + [0]G is no longer 3G"
+		}
+	})
+	if kind != "" {
+		bad = "the canary computation panicked: " + msg
+	}
+	if bad != "" {
+		c14canaryBroken = true
+	}
+	return bad
+}
+
+// c14prime: a call that fails (error or panic, recovered by the caller) must leave nothing behind: the valid calls after
+// it give the right answers.
+func c14prime(r *vx.R, badName string, bad func()) {
+	pts := c14points()
+	g, s := bytes32(new(big.Int).SetBytes(vx.Fill("primeg", 32))), bytes32(new(big.Int).SetBytes(vx.Fill("primes", 32)))
+	for rep := 0; rep < 3; rep++ {
+		r.Eval(1)
+		vx.Try(bad)
+		c := c14case{Fn: "after-failed-call", G: vx.Hex(g), S: vx.Hex(s), P: vx.Hex(encRef(pts["seeded0"])), Shape: badName}
+		kind, msg := vx.Try(func() {
+			m, err := internal.ScalarMixedMult_Unsafe(g, implPoint(pts["seeded0"]), s)
+			if err != nil {
+				panic(err)
+			}
+			if gr, b := refPoint(m); b != "" || !gr.Equal(sm2ref.MulAdd(new(big.Int).SetBytes(g), new(big.Int).SetBytes(s), pts["seeded0"])) {
+				r.Violation("sm2mul:after-failed-call:mixed-wrong", fmt.Sprintf("ScalarMixedMult_Unsafe is wrong right after a failed call (%s)", badName), c)
+			}
+			q, err := internal.ScalarMult(implPoint(pts["seeded1"]), s)
+			if err != nil {
+				panic(err)
+			}
+			if gr, b := refPoint(q); b != "" || !gr.Equal(sm2ref.Mul(new(big.Int).SetBytes(s), pts["seeded1"])) {
+				r.Violation("sm2mul:after-failed-call:mult-wrong", fmt.Sprintf("ScalarMult is wrong right after a failed call (%s)", badName), c)
+			}
+			b, err := internal.ScalarBaseMult(g)
+			if err != nil {
+				panic(err)
+			}
+			if gr, bb := refPoint(b); bb != "" || !gr.Equal(sm2ref.BaseMul(new(big.Int).SetBytes(g))) {
+				r.Violation("sm2mul:after-failed-call:base-wrong", fmt.Sprintf("ScalarBaseMult is wrong right after a failed call (%s)", badName), c)
+			}
+		})
+		if kind != "" {
+			r.Violation("sm2mul:after-failed-call:panic", fmt.Sprintf("a well-formed call right after a failed one (%s) failed: %s", badName, msg), c)
+		}
+		r.Shape("after-failed-call:" + badName)
+	}
 }
 
 // c14reuse: the same *SM2Point object is used for a call, then given a different value in place (SetBytes / Set / Add), then
@@ -188,7 +287,7 @@ func c14points() map[string]sm2ref.Point {
 }
 
 func TestVX_C14(t *testing.T) {
-	r := vx.Begin("C14", "mul-public", "ScalarBaseMult: every window value at every window position of the fixed-window layouts (6-3-14-4 always; 4-2-32, 5-3-17, 7-3-12 layouts too in thorough) on zero and seeded backgrounds, all remainder values, 0,1,2,n-1,n,n+1,2^256-1,2^i,2^i-1. ScalarMult: P in {G,-G,2G,-2G,3G,O,seeded x3}, scalar lengths 0,1,2,31,32,33, every nibble value at every nibble position, boundary values. ScalarMixedMult_Unsafe: s=d*2^i and 2^(i+5)-d*2^i for odd d at every i (every signed digit at every position), g from the base alphabet, P chosen so that [g]G and [s]P collide/cancel. Oracle sm2ref (math/big Jacobian, validated against affine arithmetic). Shape=(function, layout, position, value, background | point, length, nibble | digit, position, point)")
+	r := vx.Begin("C14", "mul-public", "ScalarBaseMult: every window value at every window position of the fixed-window layouts (6-3-14-4 always; 4-2-32, 5-3-17, 7-3-12 layouts too in thorough) on zero and seeded backgrounds, all remainder values, 0,1,2,n-1,n,n+1,2^256-1,2^i,2^i-1. ScalarMult: P in {G,-G,2G,-2G,3G,O,seeded x3}, scalar lengths 0,1,2,31,32,33, every nibble value at every nibble position, boundary values. ScalarMixedMult_Unsafe: s=d*2^i and 2^(i+5)-d*2^i for odd d at every i (every signed digit at every position), g from the base alphabet, P chosen so that [g]G and [s]P collide/cancel. After every call the returned point is computed on in place and overwritten, then fixed canary multiples are recomputed (results must not share storage with tables or package constants); failing calls (scalars of length 0,1,16,31,33,40, nil point, nil scalars) each followed by well-formed calls. Oracle sm2ref (math/big Jacobian, validated against affine arithmetic). Shape=(function, layout, position, value, background | point, length, nibble | digit, position, point)")
 	defer r.End()
 	i0, _ := vx.Shard()
 	if err := refs.SelfCheck(i0 == 0 && !vx.Replaying()); err != nil {
@@ -327,6 +426,26 @@ func TestVX_C14(t *testing.T) {
 				c14reuse(r, "mult", pa, pb, g, bytes32(sv), how)
 				c14reuse(r, "mixed", pts["G"], pts["2G"], g, bytes32(sv), how)
 			}
+		}
+	}
+	// calls that fail, each followed by well-formed calls
+	if vx.MineIdx(5) {
+		P0 := c14points()["seeded0"]
+		full := bytes32(new(big.Int).SetBytes(vx.Fill("badfull", 32)))
+		for _, l := range []int{0, 1, 16, 31, 33, 40} {
+			short := vx.Fill("badshort", l)
+			c14prime(r, fmt.Sprintf("mixed:g-len%d", l), func() { internal.ScalarMixedMult_Unsafe(short, implPoint(P0), full) })
+			c14prime(r, fmt.Sprintf("mixed:s-len%d", l), func() { internal.ScalarMixedMult_Unsafe(full, implPoint(P0), short) })
+			c14prime(r, fmt.Sprintf("base:len%d", l), func() { internal.ScalarBaseMult(short) })
+		}
+		c14prime(r, "mixed:nil-point", func() { internal.ScalarMixedMult_Unsafe(full, nil, full) })
+		c14prime(r, "mult:nil-point", func() { internal.ScalarMult(nil, full) })
+		c14prime(r, "mixed:nil-scalars", func() { internal.ScalarMixedMult_Unsafe(nil, implPoint(P0), nil) })
+	}
+	// nothing accumulated from one of the two sides: g or s zero / tiny
+	for gv := int64(0); gv <= 17; gv++ {
+		for _, sv := range []int64{0, 1, 2, 15, 16} {
+			run(c14case{Fn: "mixed", G: vx.Hex(bytes32(big.NewInt(gv))), S: vx.Hex(bytes32(big.NewInt(sv))), P: vx.Hex(encRef(sm2ref.BaseMul(big.NewInt(5)))), Shape: fmt.Sprintf("tiny:g%d:s%d", gv, sv)})
 		}
 	}
 	// cancellation inside the loop: [g]G + [s]P = O for P = G, s = n - g
